@@ -102,7 +102,8 @@ def run_seed(job):
         r = subprocess.run(['patch', '-p1', '-s', '-i', diff], cwd=d, stdout=subprocess.PIPE, stderr=subprocess.STDOUT, text=True)
         if r.returncode != 0:
             return {'id': sid, 'which': which, 'status': 'STALE', 'detail': r.stdout[-300:]}
-        env = dict(os.environ, VF_REPO=d)
+        # several replays run at once and some spawn worker processes: do not let machine load turn into UNDECIDED findings
+        env = dict(os.environ, VF_REPO=d, VF_CHECK_BUDGET_S='2400', VF_CALL_BUDGET_S='600')
         r = subprocess.run([os.path.join(VERIF, 'vf'), 'check', prop, '--tier', 'quick'], env=env,
                            stdout=subprocess.PIPE, stderr=subprocess.STDOUT, text=True, cwd=VERIF)
         rules = sorted(set(l.strip().split(' fn=')[0].replace('rule=', '') for l in r.stdout.splitlines() if l.strip().startswith('rule=')))
